@@ -1,6 +1,6 @@
 (* IdsProofs.v -- proofs for C06 / C05 (statements in model/IdsSpec.v). *)
 From Coq Require Import Lia Sorted.
-From Aqua Require Import Base Json Air Trace Handler Values Scalars Lens Exec RunExec CallSpec IdsSpec ExecInv.
+From Aqua Require Import Base Json Air Trace Handler Values Scalars Lens Exec RunExec ExecStreams CallSpec IdsSpec ExecInv ExecStreamsInv.
 Open Scope N_scope.
 Open Scope list_scope.
 
@@ -266,7 +266,7 @@ Proof.
     + destruct (String.eqb p (current_peer x)) eqn:Ep.
       * apply String.eqb_eq in Ep; subst p.
         destruct (results_take (x_call_results x) k) as [[ans |] rest] eqn:Et.
-        -- destruct ah as [a |]; [| inversion H; subst; exact I].
+        -- destruct ah as [a |]; [| inversion H; subst; try exact I; apply hps_post_of_same, ids_same_refl].
            inversion H; subst; clear H.
            pose proof (usr_spec (set_calls x (x_lcid x) rest (x_requests x)) t a out ans) as U.
            destruct (update_state_with_service_result (set_calls x (x_lcid x) rest (x_requests x)) t a out ans) as [x' | e x' | | |]; auto.
@@ -285,7 +285,7 @@ Proof.
            intros m _. split; [| split; [apply String.eqb_eq; exact E | apply ids_same_refl]].
            cbn. intro F; subst p. rewrite String.eqb_refl in Ep; discriminate.
         -- split; [apply hps_post_of_same, ids_same_of_core, sc_make_incomplete |]. intros m Hm; discriminate.
-  - destruct ah as [a |]; [| inversion H; subst; exact I].
+  - destruct ah as [a |]; [| inversion H; subst; try exact I; apply hps_post_of_same, ids_same_refl].
     destruct (populate_from_data x v a t pos src out) as [x1 | e | s | w] eqn:E; inversion H; subst; clear H; auto.
     + split; [| intros m Hm; discriminate]. apply hps_post_of_same.
       eapply ids_same_trans; [| apply ids_same_call_end].
@@ -293,7 +293,7 @@ Proof.
       destruct v; try (eapply same_core_trans; [exact E | apply sc_record_cid]); exact E.
     + apply hps_post_of_same, ids_same_refl.
   - destruct (resolve_service_info x fc) as [si | e | s | w]; try (inversion H; subst; clear H; auto; apply hps_post_of_same, ids_same_refl).
-    destruct ah as [a |]; [| inversion H; subst; exact I].
+    destruct ah as [a |]; [| inversion H; subst; try exact I; apply hps_post_of_same, ids_same_refl].
     destruct (verify_call a t (si_arg_hash si) (si_tetraplet si)); try (inversion H; subst; clear H; auto; apply hps_post_of_same, ids_same_refl).
     assert (G : forall y, hps_post x (Failed fc) y -> match (XErr (EUncatch UMalformedCallServiceFailed) x) with XErr _ x' => hps_post x (Failed fc) x' | _ => True end)
       by (intros; apply hps_post_of_same, ids_same_refl).
@@ -610,7 +610,7 @@ Proof. intros esi fs fuel i n. reflexivity. Qed.
 
 Lemma C06_fresh_run_holds : C06_fresh_run_stmt.
 Proof.
-  intros esi fs He Hf fuel i. cbv zeta.
+  intros esi fs He Hf fuel i. unfold fresh_run_post. cbv zeta.
   pose proof (C06_fresh_exec_holds esi He fuel (ri_script i) (initial_ctx i)) as H.
   assert (Triv : forall o, out_requests o = [] -> host_next_prev (ri_prev i) o = ri_prev i ->
             map fst (out_requests o) = N_seq (d_lcid (ri_prev i) + 1) (length (map fst (out_requests o))) /\
@@ -650,7 +650,7 @@ Lemma run_seq_chain : forall esi fs, hook_preserves fresh_step esi -> finish_kee
 Proof.
   intros esi fs He Hf. induction steps as [| s rest IH]; intro prev; cbn [run_seq].
   - cbn. rewrite N.add_0_r. auto.
-  - pose proof (C06_fresh_run_holds esi fs He Hf (rs_fuel s) (step_input prev s)) as R. cbv zeta in R.
+  - pose proof (C06_fresh_run_holds esi fs He Hf (rs_fuel s) (step_input prev s)) as R. unfold fresh_run_post in R. cbv zeta in R.
     cbn [ri_prev step_input] in R. destruct R as (r1 & r2 & _ & _).
     set (o := run esi fs (rs_fuel s) (step_input prev s)) in *.
     specialize (IH (host_next_prev prev o)).
@@ -663,7 +663,7 @@ Qed.
 
 Lemma C06_fresh_runs_holds : C06_fresh_runs_stmt.
 Proof.
-  intros esi fs He Hf prev steps.
+  intros esi fs He Hf prev steps. unfold fresh_runs_post.
   pose proof (run_seq_chain esi fs He Hf steps prev) as H.
   destruct (run_seq esi fs prev steps) as [idss final]. cbv zeta. destruct H as (h1 & h2).
   split; [exact h1 |]. split; [exact h2 |].
@@ -752,4 +752,29 @@ Lemma C06_unknown_partial_holds : C06_unknown_partial_stmt.
 Proof.
   intros esi fs fuel i x E L x1 F. pose proof (C06_unknown_holds esi fs fuel i x E) as H. rewrite F in H.
   destruct H as (code & R & C & _). rewrite (C L) in R. eauto.
+Qed.
+
+(* ------------------------------------------------------------------------------------------ *)
+(* stage 2: the full executor (ExecStreams.v), through proofs/ExecStreamsInv.v *)
+
+Lemma finish_streams_keeps_ids : finish_keeps_ids finish_streams.
+Proof.
+  intros x x1 H. apply finish_streams_frame in H. destruct H as (f1 & f2 & f3 & f4 & f5). repeat split; assumption.
+Qed.
+
+Lemma C06_fresh_run2_holds : C06_fresh_run2_stmt.
+Proof.
+  intros fuel i.
+  exact (C06_fresh_run_holds stream_instr finish_streams (stream_instr_preserves _ fresh_step_exec_invariant) finish_streams_keeps_ids fuel i).
+Qed.
+
+Lemma C06_fresh_runs2_holds : C06_fresh_runs2_stmt.
+Proof.
+  intros prev steps.
+  exact (C06_fresh_runs_holds stream_instr finish_streams (stream_instr_preserves _ fresh_step_exec_invariant) finish_streams_keeps_ids prev steps).
+Qed.
+
+Lemma C06_exec2_holds : C06_exec2_stmt.
+Proof.
+  intros fuel i x. split; [apply (exec2_inv _ fresh_step_exec_invariant) | apply (exec2_inv _ results_step_exec_invariant)].
 Qed.
